@@ -19,7 +19,7 @@ PINS = {
     "C18_required_field_refuted": "parse_toks (tokenize",
 }
 MODEL_FILES = ["Schema/Printer.v", "Schema/Lexer.v", "Schema/Parser.v", "Schema/Span.v"]
-SIZES = {"quick": (2400, 8), "thorough": (96000, 16)}
+SIZES = {"quick": (8000, 8), "thorough": (160000, 16)}
 LINE = re.compile(r"^(\S+) input=(\S*) imports=(\S*) detail=(\S*)$")
 
 
@@ -133,7 +133,50 @@ def unhex(h):
         return "?"
 
 
-def report_monitor(o, lines, not_violations=()):
+def still_fails(mode, what, data, imports, d):
+    src = os.path.join(d, "shrink.aldrin")
+    try:
+        data.decode("utf-8")
+    except UnicodeDecodeError:
+        return False
+    open(src, "wb").write(data)
+    rc, out, _ = core.sh([core.harness_bin("schema"), "one", mode, os.path.join(d, "shrink"), src, imports or "none"], timeout=60)
+    return any(l.split(" ", 1)[0] == what for l in out.splitlines())
+
+
+def shrink(prop, mode, what, src_hex, imports, budget=120):
+    """delta debugging on the bytes of the source text: drop chunks while the same monitor fires"""
+    try:
+        data = bytes.fromhex(src_hex)
+    except ValueError:
+        return src_hex
+    d = os.path.join(core.WORK, prop, "shrink")
+    os.makedirs(d, exist_ok=True)
+    if not still_fails(mode, what, data, imports, d):
+        return src_hex
+    n = 2
+    calls = 0
+    while len(data) >= 2 and calls < budget:
+        chunk = max(1, len(data) // n)
+        reduced = False
+        i = 0
+        while i < len(data) and calls < budget:
+            cand = data[:i] + data[i + chunk:]
+            calls += 1
+            if cand and still_fails(mode, what, cand, imports, d):
+                data = cand
+                n = max(n - 1, 2)
+                reduced = True
+            else:
+                i += chunk
+        if not reduced:
+            if chunk == 1:
+                break
+            n = min(n * 2, len(data))
+    return data.hex()
+
+
+def report_monitor(o, lines, not_violations=(), mode="c18"):
     """monitor lines -> violations (shortest input of each kind first); kinds listed in
     `not_violations` are breaks of the generator's reading of the grammar, not of the property"""
     parsed = []
@@ -149,8 +192,10 @@ def report_monitor(o, lines, not_violations=()):
             continue
         n = per_kind.get(what, 0)
         per_kind[what] = n + 1
-        if n >= 5:
+        if n >= 3:
             continue
+        if n == 0:
+            src = shrink(o.prop, mode, what, src, imps)
         o.violation(what, {"input": {"source": unhex(src)[:20000], "source_hex": src[:40000], "imports": imps[:40000]},
                            "impl_output": unhex(detail)[:3000]})
     return per_kind
